@@ -6,6 +6,53 @@ import os
 ROOT = os.path.dirname(os.path.dirname(os.path.abspath(__file__)))
 
 CHECKS = {
+    'C07': dict(
+        category='exploration',
+        text=('Hypothesis-drawn class tables and histories of new / substitute_type / to_variance_free / to_type_variable_free / '
+              'instantiate_type_constructor / get_supertypes on a shared pool of type objects: supertypes of every result are compared, '
+              'transitively, with a reference substitution on immutable terms; after every operation every constructor, argument and '
+              'earlier result is diffed structurally against a deep copy taken when it entered the pool; failing histories are shrunk.'),
+        design_ref='DESIGN.md §3 C07',
+        note='Reference = literal substitution on terms; arguments of new() are type-variable-free as the property states.',
+        technique='history-based property testing (Hypothesis operation sequences) against a reference substitution + structural invariants',
+    ),
+    'C08': dict(
+        category='exploration',
+        text=('Every top-level call of instantiate_type_constructor / instantiate_parameterized_function is recorded as terms - while '
+              'Hypothesis drives the helpers over synthetic declarations x pools x pre-assignments x variance choices x switches, and while '
+              'the real generator runs - and judged against post-conditions P1-P5 with the reference subtype relation.'),
+        design_ref='DESIGN.md §3 C08',
+        note='Effective variance choices follow the documented overrides; contravariant projection arguments are not judged against bounds.',
+        technique='property-based testing with recorded calls (synthetic + in-situ) and post-condition oracles over a reference relation',
+    ),
+    'C09': dict(
+        category='exploration',
+        text=('Top-level calls of find_subtypes / find_irrelevant_type recorded as terms on synthetic class tables (Hypothesis) and during '
+              'real generation and TypeOverwriting; every result is judged with the reference relation (subtype / unrelated / include_self '
+              '/ no bare generic class / nothing for the top type).'),
+        design_ref='DESIGN.md §3 C09',
+        note='The reference relation has the implicit top type; type variables with a declared bound are judged through the bound.',
+        technique='property-based testing with recorded calls (synthetic + in-situ) against a reference subtype relation',
+    ),
+    'C10': dict(
+        category='exploration',
+        text=('Constructive (target, pattern) pairs: ground targets generalised into patterns with repeated / bounded / nested variables '
+              'and projections, perturbed non-unifiable variants, lone-variable patterns, supertype mode; every non-empty result is applied '
+              'to the pattern with the reference substitution and compared with the target (or its supertypes), bounds checked with RM; '
+              'failures are shrunk by Hypothesis.'),
+        design_ref='DESIGN.md §3 C10',
+        note='One-directional as the property states: an empty result on a unifiable pair is counted, not judged.',
+        technique='constructive property-based testing (substitute-back oracle) with Hypothesis shrinking',
+    ),
+    'C12': dict(
+        category='translation_validation',
+        text=('Inventory of declarations, modifiers, bounds, variance, inheritance clauses, annotations, constructor / call type arguments '
+              'and literals computed from the IR is compared with name-anchored scans of the emitted text for stages G, E and O in the '
+              'program\'s own language (4 languages); backward check of declared classes; bracket / quote balance.'),
+        design_ref='DESIGN.md §3 C12, §2.8',
+        note='Scanners are regular-expression based and name-anchored (identifiers are unique); expressibility table in DESIGN.md.',
+        technique='translation validation by independent text scanners against an IR inventory over generated programs',
+    ),
     'C01': dict(
         category='exploration',
         text=('Every program returned by the real generator (4 languages x 16 switch combinations; seed mode at default and reduced '
